@@ -33,6 +33,16 @@ UnivB == << F(R, "n", "py"), F(R, "q", "pyi"),
             F(RQ, "__init__", "py"), F(RQ, "p", "py"), F(RQP, "__init__", "py"), F(RQP, "m", "py"),
             F(RQQ, "m", "pyi") >>
 
+\* D: a directory named like the tree root inside it, so that one dotted name (r.p.m) exists below
+\* two search roots (the scratch directory and the tree root) with different __init__ levels
+RR == <<"r", "r">>
+RRP == <<"r", "r", "p">>
+RRQ == <<"r", "r", "q">>
+UnivD == << F(R, "n", "py"), F(RP, "__init__", "py"), F(RP, "m", "py"), F(RP, "m", "pyi"),
+            F(RQ, "m", "py"), F(RR, "__init__", "py"), F(RR, "n", "py"),
+            F(RRP, "__init__", "pyi"), F(RRP, "m", "py"), F(RRP, "n", "py"), F(RRQ, "m", "py"),
+            F(RPQ, "m", "py") >>
+
 \* C: two shadowed module files of the same name under different base directories (search
 \* order), stub packages
 UnivC == << F(R, "n", "py"), F(R, "p", "py"), F(R, "p", "pyi"),
